@@ -65,7 +65,10 @@ class World:
         import hashlib
         import random
         rnd = random.Random(self.seed * 7919 + 13)
-        out = ""
+        # an entry nobody uses whose checksum does not match: the parser accepts it (only the shape is checked), and it
+        # must stay harmless for operations that do not use it
+        pk0 = bytes(rnd.getrandbits(8) for _ in range(32))
+        out = "[Key]\nName = unused entry with a wrong checksum\nPublicKey = %s\n\n" % base64.b64encode(pk0 + b"\x00\x01\x02\x03").decode()
         for i in range(n):
             pk = bytes(rnd.getrandbits(8) for _ in range(32))
             enc = base64.b64encode(pk + hashlib.sha256(pk).digest()[:4]).decode()
@@ -210,10 +213,16 @@ def run_config(w, c, idx, psize=None):
                 sb.write("keyring.txt", b"# caf\xe9\n" + krtext.encode())
             elif cause != "missing_keyring":
                 sb.write("keyring.txt", krtext)
-            if c["kr"] == "opt":
+            if c["kr"] in ("opt", "both"):
                 args += ["--keyring" if lng else "-k", kr_path]
             else:
                 env["KESTREL_KEYRING"] = kr_path
+            if c["kr"] == "both":
+                # the variable names another keyring in which the names mean other keys: "alice" is carol's public key,
+                # alice's real key is called "mallory"; bob is the same (so decryption would succeed and name the wrong sender)
+                k = w.keys
+                sb.write("decoy.txt", cli.keyring_text([("alice", k["carol"], False), ("bob", k["bob"], True), ("mallory", k["alice"], False)]))
+                env["KESTREL_KEYRING"] = sb.path("decoy.txt")
         if cause != "no_terminal":
             args.append("--env-pass")
         pw = {"encrypt": "alice-pw", "decrypt": "bob-pw", "pass_encrypt": "file-pw", "pass_decrypt": "file-pw",
@@ -226,9 +235,9 @@ def run_config(w, c, idx, psize=None):
         elif cause != "unset_password":
             env["KESTREL_PASSWORD"] = pw
         r = cli.kestrel(args, env=env, stdin=stdin, timeout=120, stdout_path="/dev/full" if cause == "stdout_full" else None,
-                        raw_env=raw_env, setsid=(cause == "no_terminal"))
+                        raw_env=raw_env, setsid=(cause == "no_terminal"), stdout_closed=(cause == "stdout_closed"))
         # ---- classify the output ----
-        if cause in ("output_device_full", "stdout_full", "input_read_error"):
+        if cause in ("output_device_full", "stdout_full", "stdout_closed", "input_read_error"):
             got = b"n/a"
         elif cause == "output_dir_missing":
             got = None if not os.path.exists(out_path) else b"created"
@@ -309,6 +318,39 @@ def run_configs(rep, pid, name, w, configs, only_prefixes, psize=None):
     return evs
 
 
+def tool_configs(cmds, causes):
+    """Configurations of CliContract for a tool-level clause of another property (C04, C10): default wiring plus
+    stdin / long-option variants."""
+    out = []
+    for cmd in cmds:
+        for cause in causes:
+            if cause == "input_read_error" and cmd == "key_generate":
+                continue
+            if cause in ("corrupt_later_chunk", "truncated_later_chunk", "appended_data", "corrupt_first_chunk") and cmd not in ("decrypt", "pass_decrypt"):
+                continue
+            outp = "stdout" if cause in ("stdout_full", "stdout_closed") else "file"
+            for inp, lng in (("file", False), ("stdin", True)):
+                if cmd == "key_generate":
+                    inp = "stdin"
+                if cause == "input_read_error" and inp != "file":
+                    continue
+                c = {"cmd": cmd, "cause": cause, "prior": "absent", "inp": inp, "outp": outp, "kr": "opt", "long": lng, "alias": lng,
+                     "sender": "first"}
+                if c not in out:
+                    out.append(c)
+    return out
+
+
+def tool_clause(rep, pid, tpl, seed, cmds, causes, prefix):
+    w = World(pid, tpl, seed)
+    cfgs = tool_configs(cmds, causes)
+    for c in cfgs:
+        rep.case("tool:" + json.dumps(c, sort_keys=True), True)
+    evs = run_configs(rep, pid, "tool", w, cfgs, [prefix])
+    rep.extra["tool_level_runs"] = len(evs)
+    return evs
+
+
 def cli_models(rep, pid, negatives):
     res = run_tlc(pid, "cli-mc", "Cli", cli_cfg("none", CLI_INV + ["Emit"]), workers=1, timeout=600)
     rep.add_model("cli-mc", res, "every configuration of CliContract through the step model; C12/C13 invariants; emits configurations")
@@ -351,7 +393,7 @@ def c12(pid, tier, seed, selftest=False):
         elif c["cmd"] != "decrypt" and c["prior"] == "absent" and c["cause"] in ("none", "wrong_password", "unset_password", "bad_args"):
             if thorough or (c["long"] == c["alias"]):
                 sel.append(c)
-        elif c["cause"] in ("output_dir_missing", "output_device_full", "stdout_full"):
+        elif c["cause"] in ("output_dir_missing", "output_device_full", "stdout_full", "stdout_closed"):
             # the output cannot be written: not completed, exit 1 with a message
             if thorough or (c["long"] == c["alias"] and c["sender"] == "first" and c["kr"] == "opt" and c["inp"] == "file") or c["cmd"] == "key_generate":
                 sel.append(c)
@@ -448,7 +490,12 @@ def exec_gen_history(w, hid, initial, n):
         names = []
         pws = []
         for k in range(n):
-            name = "gen key %d %s" % (k, hid)
+            # names accepted by key generation, including the longest ones (128 bytes, ASCII and multi-byte) and the shortest
+            suffix = "%s.%d" % (hid, k)
+            fill = 128 - len(suffix)
+            name = ["gen key %d %s" % (k, hid), suffix.ljust(128, "x"), "é" * (fill // 2) + "x" * (fill % 2) + suffix,
+                    "%s%d" % (hid[-1], k)][(k + int(hid[1:])) % 4]
+            assert len(name.encode()) <= 128
             pw = GEN_PASSWORDS[(k + 3 * int(hid[1:])) % len(GEN_PASSWORDS)]
             before = sb.read("keyring.txt")
             r = cli.kestrel(["key", "generate", "-o", f, "--env-pass"], env={"KESTREL_PASSWORD": pw}, stdin=(name + "\n").encode())
@@ -475,6 +522,14 @@ def exec_gen_history(w, hid, initial, n):
                     d = cli.kestrel(["decrypt", sb.path("m.ktl"), "-t", "bob", "-o", sb.path("m.out"), "-k", kr2, "--env-pass"],
                                     env={"KESTREL_PASSWORD": "bob-pw"})
                     usable = d.rc == 0 and sb.read("m.out") == b"message %d" % k and ("File from: " + name) in d.err_text
+                # ... and with EXACTLY its password: the block's locked key opens under the password bytes as given, read by the
+                # specification (whatever the tool does to a password must be the same everywhere, so it may do nothing)
+                mblk = re.search(r"Name = %s\nPublicKey = (\S+)\nPrivateKey = (\S+)" % re.escape(name), after.decode("utf-8", "replace"))
+                if usable and mblk:
+                    u = cli.driver_ops(w.pid, w.tpl, [{"op": "unlock", "locked": mblk.group(2), "password_hex": pw.encode().hex()}], w.seed, "genu")[0]
+                    usable = bool(u.get("ok")) and u.get("pub_enc") == mblk.group(1)
+                elif usable:
+                    usable = False
             evs.append({"ev": "gen", "id": "%s.%d" % (hid, k), "initial": initial, "step": k, "exit": r.rc, "prefix_kept": prefix_kept,
                         "parses": parses, "names_present": bool(names_present), "usable": usable,
                         "size_before": -1 if before is None else len(before), "size_after": len(after), "stderr": r.err_text[-200:]})
@@ -552,12 +607,16 @@ def c14(pid, tier, seed, selftest=False):
 
 
 LIFE_PW = {"p0": "", "p1": "a", "p2": "päss 世界", "p3": "L" * 200}
+# a second reading of the model's password names: near misses that differ only by white space at the ends, and
+# lengths at the block size of the key-derivation's HMAC (odd-numbered histories)
+LIFE_PW_B = {"p0": "hunter2", "p1": "hunter2 ", "p2": "\thunter2", "p3": "B" * 64}
 
 
 def exec_life_history(w, hid, first, ops):
     evs = []
+    pwmap = LIFE_PW_B if int(hid[1:]) % 2 else LIFE_PW
     with cli.Sandbox(w.pid, "life") as sb:
-        pw = LIFE_PW[first]
+        pw = pwmap[first]
         r = cli.kestrel(["key", "generate", "--env-pass"], env={"KESTREL_PASSWORD": pw}, stdin=b"lifekey\n")
         m = re.search(rb"PublicKey = (\S+)\nPrivateKey = (\S+)", r.out)
         if r.rc != 0 or not m:
@@ -582,7 +641,7 @@ def exec_life_history(w, hid, first, ops):
         for k, op in enumerate(ops):
             tag = "%s.%d" % (hid, k)
             if op[0] == "changepass":
-                new = LIFE_PW[op[1]]
+                new = pwmap[op[1]]
                 r = cli.kestrel(["key", "change-pass", locked, "--env-pass"], env={"KESTREL_PASSWORD": pw, "KESTREL_NEW_PASSWORD": new})
                 outputs.append(r.out + r.err)
                 m = re.search(rb"PrivateKey = (\S+)", r.out)
@@ -782,6 +841,20 @@ def c09(pid, tier, seed, selftest=False):
             rep.violation("%s surface=%s kind=%s len=%s" % (pred, e["surface"], e["kind"], e["len"]), {"engine": "fuzz", "observed": e})
     rep.extra["byte_surface_calls"] = len(scen)
     rep.extra["results"] = {k: sum(1 for evs in res for e in evs if e["res"] == k) for k in ("ok", "err", "panic", "abort")}
+    # ---- structured keyring texts: every token sequence of Keyring.tla up to 5 lines (incomplete, duplicated, reordered
+    # sections), two renderings each, through the real parser ----
+    import checks_keyring
+    from oneshot import run_oneshot
+    kres = run_tlc(pid, "kr-tokens", "Keyring", checks_keyring.kr_cfg(6 if thorough else 5, False, ["Emit"]), workers=1, timeout=900)
+    rep.add_model("kr-tokens", kres, "keyring line-token sequences for the crash surface")
+    kscen = []
+    for i, r in enumerate(kres.replays):
+        for stl in ([i % 30, (i * 7 + 3) % 30] if thorough else [i % 30]):
+            kscen.append({"op": "kr", "id": "kt%d.%d" % (i, stl), "toks": r["toks"], "class": r["class"], "style": stl})
+    for s_ in kscen:
+        rep.case("krtok:" + s_["id"], True)
+    run_oneshot(rep, pid, "krtok", "kr", kscen, tpl, seed, "Trace_Keyring", nproc=16, only_prefixes=["C09_"])
+    rep.extra["keyring_token_texts"] = len(kscen)
     # ---- argument vectors ----
     av = run_tlc(pid, "argv", "MC_Argv", "SPECIFICATION Spec\nCONSTANTS\n  MaxArgs = %d\n  Vocab <- %s\nINVARIANT Emit\nCHECK_DEADLOCK FALSE\n"
                  % ((4, "VocabSmall") if thorough else (3, "VocabSmall")), workers=1, timeout=900)
@@ -938,7 +1011,7 @@ def tty_extension(rep, pid, tpl, seed, thorough, prefixes, only_failures=False):
 # process level: the decryptor's reads and writes as seen by strace, validated by Trace_Stream (C04, C11)
 # --------------------------------------------------------------------------
 
-def strace_decrypt(w, name, data, expect_plain, klass, auth_n, mode="key"):
+def strace_decrypt(w, name, data, expect_plain, klass, auth_n, mode="key", chunks=(65536, 1000)):
     """Run `kestrel decrypt` under strace and turn its read/write system calls on the input and output
     files into the event format of Trace_Stream (the same D1 / D2 / D5 / D7 predicates, now at the
     process boundary).  auth_n: number of leading records that are authentic (two-chunk files)."""
@@ -963,8 +1036,12 @@ def strace_decrypt(w, name, data, expect_plain, klass, auth_n, mode="key"):
         got = sb.read("out.bin")
         in_fd = out_fd = None
         cons = acc = 0
-        ends = [hdr + 32 + 65536, hdr + 32 + 65536 + 32 + 1000][:auth_n]
-        plens = [65536, 1000][:auth_n]
+        ends, off_ = [], hdr
+        for c_ in chunks:
+            off_ += 32 + c_
+            ends.append(off_)
+        ends = ends[:auth_n]
+        plens = list(chunks)[:auth_n]
         lag = 2 * (65536 + 32)
         evs = []
         for line in open(log_path, errors="replace"):
@@ -986,7 +1063,9 @@ def strace_decrypt(w, name, data, expect_plain, klass, auth_n, mode="key"):
             else:
                 continue
             authc = sum(pl for en, pl in zip(ends, plens) if en <= cons)
-            due = sum(pl for en, pl in zip(ends, plens) if en + lag < cons)
+            # AFile!Due: record k is due once consumption is past the end of record k+2 (or past two maximal records)
+            due = sum(pl for k_, (en, pl) in enumerate(zip(ends, plens))
+                      if (k_ + 2 < len(ends) and ends[k_ + 2] < cons) or en + lag < cons)
             if kind == "read":
                 evs.append({"ev": "read", "req": req, "ret": ret if ret >= 0 else -1, "heap": 0, "cons": cons, "acc": acc, "authc": authc, "due": due})
             else:
@@ -1002,6 +1081,43 @@ def strace_decrypt(w, name, data, expect_plain, klass, auth_n, mode="key"):
                  "faults": {"read": "none", "write": "none", "flush": "none"}, "heapk": 1 << 30}
         end = {"ev": "end", "res": res, "cons": cons, "acc": acc, "eofs": 1, "late": 0, "sender_ok": True, "boundary": boundary}
         return [begin] + evs + [end]
+
+
+def process_level_lag(rep, pid, tpl, seed):
+    """C11 at the process boundary (every tier): `kestrel decrypt` under strace on files of many SMALL chunks (what the
+    encryptor writes when its source delivers short reads); each chunk must be out before more than two further chunks
+    have been read (D7), the released bytes are the authentic prefix (D1)."""
+    import shutil as _sh
+    if not _sh.which("strace"):
+        rep.notes.append("strace not available: process-level lag observation skipped")
+        return
+    w = World(pid, tpl, seed)
+    runs = []
+    for mode in ("key", "pass"):
+        for chunks in ([4096] * 40, [1000] * 30 + [65536, 7], [1] * 50):
+            op = {"op": "specfile", "api": mode, "chunks": chunks, "pseed": 21, "tag": "lag", "out": os.path.join(w.dir, "lag.ktl")}
+            if mode == "key":
+                op.update({"s_priv_hex": w.keys["alice"]["sk_hex"], "r_pub_hex": w.keys["bob"]["pk_hex"]})
+            else:
+                op["password_hex"] = b"file-pw".hex()
+            cli.driver_ops(pid, tpl, [op], seed, "lagfile")
+            data = open(os.path.join(w.dir, "lag.ktl"), "rb").read()
+            plain = open(os.path.join(w.dir, "lag.ktl.plain"), "rb").read()
+            runs.append(strace_decrypt(w, "lag-%s-%dx%d" % (mode, len(chunks), chunks[0]), data, plain, "must_accept", len(chunks), mode,
+                                       chunks=chunks))
+    evs = [e for r in runs for e in r]
+    wd = workdir(pid, "run-lag", clean=True)
+    tp = os.path.join(wd, "trace.ndjson")
+    write_jsonl(tp, evs)
+    v = validate_trace(pid, "lag", "Trace_Stream", tp, len(evs))
+    rep.add_trace_run("strace-lag", v, len(runs), len(evs))
+    for (ln, pred) in v["viols"]:
+        if pred.startswith("TOOL_"):
+            raise ToolError("trace tooling mismatch " + pred)
+        rep.violation("%s (process level, strace) event=%d" % (pred, ln), {"engine": "strace", "events": evs[max(0, ln - 5):ln + 2]})
+    rep.extra["process_level_lag_runs"] = len(runs)
+    for r in runs:
+        rep.case("strace:" + r[0]["id"], True)
 
 
 def process_level_stream(rep, pid, tpl, seed):
